@@ -27,6 +27,7 @@ type State struct {
 	gdepth  int            // > 0 while a goroutine other than main is running
 	socks   []ObjID        // sockets opened so far (sockets.go)
 	choice  []int          // program-level choices made with nondetEnum (states with different choices never merge)
+	epochs  []epochRec     // times whose epoch second has been named (Time.UnixMilli)
 	clock   *Term          // deterministic clock (sockets.go); nil: time.Now() yields fresh non-decreasing instants
 	net     *netState      // socket script and recorded writes (copy-on-write)
 	ranges  map[*Term]urange // unsigned ranges implied by assumed comparisons (ranges.go); copy-on-write
@@ -70,6 +71,7 @@ func (s *State) fork() *State {
 		rangesShared: true,
 		clock:   s.clock,
 		net:     s.net,
+		epochs:  s.epochs[:len(s.epochs):len(s.epochs)],
 	}
 	s.rangesShared = true
 	if len(s.views) > 0 {
@@ -513,6 +515,14 @@ func (e *Engine) mergeStates(a, b *State, extra func(g *Term) bool) (*State, boo
 			return nil, false
 		}
 	}
+	if len(a.epochs) != len(b.epochs) {
+		return nil, false
+	}
+	for i := range a.epochs {
+		if a.epochs[i] != b.epochs[i] {
+			return nil, false
+		}
+	}
 	if (a.clock == nil) != (b.clock == nil) {
 		return nil, false
 	}
@@ -596,6 +606,7 @@ func (e *Engine) mergeStates(a, b *State, extra func(g *Term) bool) (*State, boo
 		socks:   a.socks,
 		choice:  a.choice,
 		net:     a.net,
+		epochs:  a.epochs,
 	}
 	if a.clock != nil && b.clock != nil {
 		out.clock = e.tc.Ite(g, a.clock, b.clock)
